@@ -5,6 +5,7 @@ schemaless and container writers and reads back.  Model tie: every generated val
 of the model generator (Generate.inImage) and conform by Spec.conforms."""
 import copy
 import io
+import json
 import random
 import signal
 
@@ -129,6 +130,11 @@ def run(tier, seed):
         directed.append(root)
     directed.append({"type": "array", "items": {"type": "record", "name": "Node", "fields": [
         {"name": "raw", "type": "bytes", "default": "\u00ff"}, {"name": "next", "type": ["null", "Node"], "default": None}]}})
+    # records of kind "error" (the specification's other record kind) at every position
+    err = {"type": "error", "name": "ns.Failure", "fields": [{"name": "code", "type": "int"}, {"name": "msg", "type": "string"}]}
+    directed += [err, {"type": "record", "name": "Resp", "fields": [{"name": "f", "type": err}, {"name": "again", "type": "ns.Failure"}]},
+                 {"type": "array", "items": err}, {"type": "map", "values": err}, ["null", err],
+                 {"type": "record", "name": "Resp2", "fields": [{"name": "fs", "type": {"type": "array", "items": err}}, {"name": "one", "type": ["ns.Failure", "string"]}]}]
     for i in range(scale(tier, 500) + len(directed)):
         g = gen.Gen(seed * 20000003 + i, logical=(i % 3 == 0), bytes_defaults=False, max_depth=2 if i % 2 else 3)
         try:
@@ -191,7 +197,9 @@ def run(tier, seed):
                     bad = True
                     break
                 # (values of recursive types can be deeper than the driver's depth bound: not sent to the model)
-                if not any(t.startswith("logical") for t in tags) and rk is None and len(reqs) < scale(tier, 1500):
+                # (the model has one record kind; "error" records are checked on the implementation only)
+                if not any(t.startswith("logical") for t in tags) and rk is None and len(reqs) < scale(tier, 1500) \
+                        and '"type": "error"' not in json.dumps(s):
                     reqs.append({"schema": to_wire(s), "value": to_wire(v)})
                     meta.append(c2)
             if bad:
@@ -203,6 +211,54 @@ def run(tier, seed):
             run.cov["evaluations"] += 1
         except Exception:
             pass
+    # ---- several generators alive at once (generate_many is lazy): schemas that define a type of the same name differently;
+    # consumed alternately, each generator's values conform to ITS schema
+    v1 = {"type": "record", "name": "app.Msg", "fields": [
+        {"name": "level", "type": {"type": "enum", "name": "app.Level", "symbols": ["LOW", "HIGH"]}},
+        {"name": "key", "type": {"type": "fixed", "name": "app.Key", "size": 2}},
+        {"name": "again", "type": "app.Level"}, {"name": "keys", "type": {"type": "array", "items": "app.Key"}},
+        {"name": "body", "type": {"type": "record", "name": "app.Body", "fields": [{"name": "x", "type": "int"}]}}, {"name": "body2", "type": "app.Body"}]}
+    v2 = {"type": "record", "name": "app.Msg", "fields": [
+        {"name": "level", "type": {"type": "enum", "name": "app.Level", "symbols": ["DEBUG", "INFO", "WARN"]}},
+        {"name": "key", "type": {"type": "fixed", "name": "app.Key", "size": 5}},
+        {"name": "again", "type": "app.Level"}, {"name": "keys", "type": {"type": "array", "items": "app.Key"}},
+        {"name": "body", "type": {"type": "record", "name": "app.Body", "fields": [{"name": "y", "type": "string"}, {"name": "z", "type": "long"}]}},
+        {"name": "body2", "type": "app.Body"}]}
+    for pattern in ("zip", "round-robin", "second-started-late", "sequential"):
+        random.seed(seed * 7 + len(pattern))
+        try:
+            if pattern == "zip":
+                pairs = list(zip(generate_many(copy.deepcopy(v1), 4), generate_many(copy.deepcopy(v2), 4)))
+                got = [[a for a, _ in pairs], [b for _, b in pairs]]
+            elif pattern == "round-robin":
+                g1, g2 = generate_many(copy.deepcopy(v1), 4), generate_many(copy.deepcopy(v2), 4)
+                got = [[], []]
+                for _ in range(4):
+                    got[1].append(next(g2))
+                    got[0].append(next(g1))
+            elif pattern == "second-started-late":
+                g1 = generate_many(copy.deepcopy(v1), 4)
+                got = [[next(g1)], []]
+                g2 = generate_many(copy.deepcopy(v2), 4)
+                got[1].append(next(g2))
+                got[0] += list(g1)
+                got[1] += list(g2)
+            else:
+                got = [list(generate_many(copy.deepcopy(v1), 4)), list(generate_many(copy.deepcopy(v2), 4))]
+        except Exception as e:  # noqa
+            run.fail({"schemas": [v1, v2], "pattern": pattern, "error": repr(e)[:200], "tags": ["generators-alive-together"]},
+                     "generate_many raises %s when two generators are consumed alternately" % exc_class(e), kind="oracle")
+            continue
+        for which, (sch, vals) in enumerate(zip((v1, v2), got)):
+            run.cov["evaluations"] += 1
+            run.tag("generators-alive-together:" + pattern)
+            bad = [v for v in vals if validate(v, copy.deepcopy(sch), raise_errors=False) is not True]
+            if len(vals) != 4 or bad:
+                run.fail({"schemas": [v1, v2], "pattern": pattern, "generator": which, "n_values": len(vals), "value": to_wire(bad[0]) if bad else None,
+                          "tags": ["generators-alive-together"]},
+                         "a value of one generate_many generator does not validate against its schema when another generator (same type "
+                         "names, other definitions) is alive", kind="oracle")
+                break
     # ---- extreme states of the random source: randint returns the lowest / the highest value of its range
     import fastavro.utils as _fu
 
